@@ -126,12 +126,31 @@ class ProgProp:
         key = ("asmtab-old", v)
         if key not in ctx.cache:
             opc = rw.xd().disasm.get_opcode(ga.vt(v), False)
+            hasjrel, hasjabs = set(opc.hasjrel), set(opc.hasjabs)
+            cats = dict((c_, set(getattr(opc, c_))) for c_ in ("hasconst", "hasname", "haslocal", "hasfree", "hascompare"))
+            # which opcodes jump, and how, is taken from the family's real interpreter wherever the opcode still exists
+            # there under the same name (2.7 for 2.x, 3.6 for 3.0-3.5): an independent source for the reference decode
+            fam = self.tables(ctx, "2.7" if ga.vt(v) < (3, 0) else "3.6")
+            for name, num in opc.opmap.items():
+                if name in fam.opmap and num >= opc.HAVE_ARGUMENT:
+                    fnum = fam.opmap[name]
+                    hasjrel.discard(num)
+                    hasjabs.discard(num)
+                    if fnum in fam.jrel:
+                        hasjrel.add(num)
+                    elif fnum in fam.jabs:
+                        hasjabs.add(num)
+                    for c_, fset in (("hasconst", fam.const), ("hasname", fam.name), ("haslocal", fam.local), ("hasfree", fam.free),
+                                     ("hascompare", fam.compare)):
+                        cats[c_].discard(num)
+                        if fnum in fset:
+                            cats[c_].add(num)
             ctx.cache[key] = ga.Tables(v, {
                 "opmap": dict((n, c) for n, c in opc.opmap.items() if not n.startswith("<")),
                 "HAVE_ARGUMENT": opc.HAVE_ARGUMENT, "EXTENDED_ARG": opc.opmap["EXTENDED_ARG"],
-                "hasjrel": sorted(opc.hasjrel), "hasjabs": sorted(opc.hasjabs), "hasconst": sorted(opc.hasconst),
-                "hasname": sorted(opc.hasname), "haslocal": sorted(opc.haslocal), "hasfree": sorted(opc.hasfree),
-                "hascompare": sorted(opc.hascompare)})
+                "hasjrel": sorted(hasjrel), "hasjabs": sorted(hasjabs), "hasconst": sorted(cats["hasconst"]),
+                "hasname": sorted(cats["hasname"]), "haslocal": sorted(cats["haslocal"]), "hasfree": sorted(cats["hasfree"]),
+                "hascompare": sorted(cats["hascompare"])})
         return ctx.cache[key]
 
     def judge_asm_old(self, case, ctx):
@@ -176,6 +195,7 @@ class ProgProp:
             ref.append((o, op, arg, tgt))
         vt = ga.vt(v)
         py2 = vt < (3, 0)
+        sk = "y" if py2 else "t"
         consts = ["T", [["i", str(k)] for k in range(ga.NTAB)]]
         names = ["n%d" % k for k in range(ga.NTAB)]
         varnames = ["v%d" % k for k in range(ga.NTAB)]
@@ -217,6 +237,22 @@ class ProgProp:
                     if q["j"] != (o in labels):
                         fail("jump", "asmold-is_jump_target", "at %d %s: is_jump_target %s, jump operands %s" % (o, name, q["j"], sorted(labels)[:8]))
                         break
+                    if arg is not None and op != tab.ext:
+                        # the padded tables make every index resolvable: consts[i] = i, names n<i>, locals v<i>, cells c0-7 + f0-7
+                        want_v = None
+                        if op in tab.const and arg < ga.NTAB:
+                            want_v = ("const", ["i", str(arg)])
+                        elif op in tab.name and arg < ga.NTAB:
+                            want_v = ("name", [sk, rw.hx(("n%d" % arg).encode())])
+                        elif op in tab.local and arg < ga.NTAB:
+                            want_v = ("local", [sk, rw.hx(("v%d" % arg).encode())])
+                        elif op in tab.free and arg < 16:
+                            want_v = ("free", [sk, rw.hx((("c%d" % arg) if arg < 8 else ("f%d" % (arg - 8))).encode())])
+                        if want_v is not None and (q["k"], q["v"]) != want_v and not (q["k"] == want_v[0] and q["v"] and q["v"][0] in ("y", "t")
+                                                                                      and want_v[1][0] in ("y", "t") and q["v"][1] == want_v[1][1]):
+                            fail("argval", "asmold-argval|%s|%s" % (want_v[0], name), "at %d %s %s: operand names %s %s, xdis resolves %s %s" % (
+                                o, name, arg, want_v[0], cn.summary(want_v[1]), q["k"], cn.summary(q["v"])))
+                            break
         if "labels_err" in d:
             fail("labels", "findlabels-raised", "findlabels raised %s" % d["labels_err"])
         elif sorted(labels) != d.get("labels"):
@@ -272,7 +308,7 @@ class ProgProp:
                          {"op": fwd, "arg": 0, "pre": 0, "to": -1}, {"op": back, "arg": 0, "pre": 0, "to": 0},
                          {"op": back, "arg": 0, "pre": 0, "to": 2}, {"op": pad, "arg": None, "pre": 0, "to": None}]
                 yield {"k": "asmold" if old else "asm", "v": v, "items": items}
-                for items in ga.jump_patterns(tab):
+                for items in ga.jump_patterns(tab) + ga.opcode_sweeps(tab):
                     yield {"k": "asmold" if old else "asm", "v": v, "items": items}
 
     def judge_corpus_internal(self, case, ctx):
